@@ -801,6 +801,14 @@ def r2_predict(ctx, repo, cls):
         else:
             table.setdefault(("default", tuple(sorted(map(str, false_names)))), set()).add(op)
     if bad_shape:
+        if all(mentions(res, r.value, ("ret", ce.id)) for r in bad_shape) and valid is not None:
+            # weaker, still sound clause: every result is computed from the column-wise concatenation of all member forecasts,
+            # after the membership test; the name <-> operator table itself is not compared for this dispatch shape
+            ctx.info("EnsembleForecaster._predict: the aggregate is produced by a dispatch the rule does not interpret (%s); "
+                     "name <-> operator table not compared, membership test / concatenation / member rules remain" % res.fmt(bad_shape[0].value)[:160])
+            ctx.ok("R2", C + ":aggregator", "every result is computed from the concatenated member forecasts (operator table not compared)",
+                   loc_of(bad_shape[0]), nontrivial=False)
+            return
         ctx.undecided("R2", C + ":aggregator", "a return value is not an aggregate of the concatenated forecasts: %s"
                       % res.fmt(bad_shape[0].value), loc_of(bad_shape[0]))
         return
